@@ -22,21 +22,25 @@ from harness.common.framework import REPO
 from harness.translate import c08_tables
 
 ID = "C08"
-LEVEL_TEXT = ("Theorems over all trees (modules, classes, functions, attributes, aliases, decorators, docstrings, parameters, generic expression "
-              "dataclasses of any depth): in minimal mode a tree outside four decidable gap predicates decodes to exactly `reload t`, an explicit "
-              "function; `reload t` re-encodes to the identical JSON, agrees with t on every field up to parent links and enum-typed fields, and is "
-              "equal to t when the expression gap is absent too. Each gap is refuted by a computed witness and shown to make decoding fail "
-              "(line numbers, file paths, member keys `kind`/`cls`) or to change the re-encoding (docstring cleaning). In full mode every tree with a "
-              "docstring fails to decode, whatever the derived values; a tree without docstrings decodes as in minimal mode. The expression class table, "
-              "enum values and constructor signatures are regenerated from the sources on every run; the model is tied to the code by differential "
-              "runs on generated packages (both agents), namespace and builtin modules, hand-built trees, thousands of expressions and damaged documents.")
+LEVEL_TEXT = ("Theorems over all trees (modules, classes, functions, attributes, aliases, decorators, docstrings, parameters, expression dataclasses "
+              "of the regenerated table at any depth), minimal mode: a tree outside three decidable decoding gaps decodes to exactly `reload t`, an "
+              "explicit function (C08_decode_enc_min); the gaps are exact - any tree with one of them fails to decode, so for trees the agents can "
+              "build `decodable` <=> the document decodes (C08_gap_decode_fails, C08_decodable_iff); `reload t` re-encodes to the identical JSON unless a "
+              "docstring is not a fixpoint of cleandoc (C08_reencode_identical, C08_roundtrip_min), agrees with t on every serialised field up to "
+              "parent links and enum typing (C08_equiv_fields), and is t itself when no expression gap is present (C08_names_resolve_modulo_known). "
+              "Full mode: every tree with a docstring fails to decode whatever the derived values (C08_full_docstring_not_decodable). Eleven computed "
+              "`_refuted` witnesses, one per finding, each replayed on the implementation; an Example tree with every node kind satisfies all hypotheses. "
+              "The expression class table, enum values and constructor signatures are regenerated from the sources on every run; the model is tied to "
+              "the code by differential runs on generated packages (visit with/without resolved aliases, forced inspection), namespace and builtin "
+              "modules, hand-built trees, 1500+ expressions, damaged documents, and `griffe dump` invocations.")
 LEVEL_NOTE = ("Trusted: Coq kernel, extraction, translator harness/translate/c08_tables.py, the abstraction live object -> model tree in this module, "
               "json.dumps/json.loads themselves (the model starts at the dict level; first binding wins in the model, documents never repeat a key). "
-              "Full-mode derived values (file paths relative to cwd/package, parsed docstring sections) are parameters of the model, read from the live "
-              "objects; that they are re-derived identically after a reload is checked on the implementation only. Name *resolution* is C04's subject: "
-              "the model carries the parent link of every name, equality of canonical paths is checked on the implementation. Fields that are never "
-              "serialised (imports, exports, runtime, public, deprecated, extra, overloads, property setters/deleters) are outside the statement. "
-              "Decoding a document whose root is not a module, non-ASCII strings and set_member name clashes are outside the model.")
+              "Partial: full mode is modelled for encoding and for the decoding failure only; that a docstring-free full document re-encodes "
+              "identically is checked on the implementation, not proved (the derived values - paths relative to cwd/package, parsed sections - are "
+              "parameters of the model read from the live objects). Name *resolution* is C04's subject: the theorems carry every name's parent link, "
+              "equality of canonical paths before/after is checked on the implementation per name occurrence. Fields that are never serialised "
+              "(imports, exports, runtime, public, deprecated, extra, overloads, property setters/deleters) are outside the statement. Documents whose "
+              "root is not a module, non-ASCII strings, set_member name clashes and ill-typed expression fields are outside the model (EUnmodelled).")
 MODEL = ("Model.C08_run", "run_C08")
 MODEL_TARGETS = ["Model/C08_run.vo"]
 COQ_TARGETS = ["Proofs/C08_json.vo"]
@@ -1432,7 +1436,9 @@ def witnesses(ctx):
     ctx.witness("C08-F5", _rt(V("kind = 1\n")) == ("dec", "KeyError:name") and _rt(V("cls = 1\n")) == ("dec", "TypeError")
                 and _rt(V("class C:\n    kind: int = 0\n")) == ("dec", "KeyError:name"))
     r = _rt(V('"""\n    Deep first line.\nRest.\n"""\n'))
-    ctx.witness("C08-F6", r[0] == "diff" and r[1].docstring.value == "Deep first line.\nRest.")
+    r2 = _rt(V('"""\nFirst line.\n    Rest, deeper.\n  Tail.\n"""\n'))
+    ctx.witness("C08-F6", r[0] == "diff" and r[1].docstring.value == "Deep first line.\nRest."
+                and r2[0] == "diff" and r2[1].docstring.value == "First line.\n  Rest, deeper.\nTail.")
     r = _rt(V("f = lambda *a, k, **kw: 0\n"))
     ctx.witness("C08-F7", r[0] == "same" and str(r[1].members["f"].value) == "lambda a, k, kw: 0")
 
@@ -1467,6 +1473,12 @@ def explore(ctx):
         docs.append(build_clean_doc(ctx.rng, i))
     stream_damaged(ctx, docs, ctx.budget(800, 8000))
     check_cli(ctx, ctx.budget(3, 8))
+    # every expression dataclass of the (regenerated) table must have been exercised: the model's rule for
+    # `iterate(flat=False)` is generic, a class the generators never produce would go unvalidated
+    table = {n for n in dir(griffe) if n.startswith("Expr") and n != "Expr" and isinstance(getattr(griffe, n), type)}
+    missing = sorted(table - set(ctx.dist.get("expr_classes", {})))
+    if missing:
+        ctx.tie_failure("harness", "expression classes never generated", {"missing": missing})
     if not ctx.quick:
         # kept shallow: Coq's printer elides terms below its printing depth
         sample = [["clean", "\n    a\n  b"], ["clean", "\ta\n\t b \n\n"], ["clean", "x\n   y\n  z"],
